@@ -1,23 +1,26 @@
 #!/usr/bin/env python3
 """Write /verif/seeded/CATCHES.md from the latest result per seeded change in seeded/results*.jsonl."""
 import json, glob, os, re
-res = {}
+res = {}  # id -> {'target': latest run of the target check alone, 'all': latest run of several checks, 'cross': prop -> fired (runs of one other check)}
+metas = {os.path.basename(os.path.dirname(d)): json.load(open(d)) for d in glob.glob('/verif/seeded/*/meta.json')}
 for f in sorted(glob.glob('/verif/seeded/results*.jsonl'), key=os.path.getmtime):
     for l in open(f):
         try: r = json.loads(l)
         except Exception: continue
-        if r.get('status') != 'ran': continue
-        cur = res.setdefault(r['id'], {'target': None, 'all': None})
-        if len(r.get('secs', {})) > 1: cur['all'] = r
-        else: cur['target'] = r
+        if r.get('status') != 'ran' or r['id'] not in metas: continue
+        cur = res.setdefault(r['id'], {'target': None, 'all': None, 'cross': {}})
+        ps = list(r.get('secs', {}))
+        if len(ps) > 1: cur['all'] = r
+        elif ps == [metas[r['id']]['property']]: cur['target'] = r
+        elif ps: cur['cross'][ps[0]] = ps[0] in r.get('fired', [])
 rows = []
 for d in sorted(glob.glob('/verif/seeded/*/meta.json')):
     sid = os.path.basename(os.path.dirname(d)); m = json.load(open(d))
-    r = res.get(sid, {})
-    t, a = r.get('target'), r.get('all')
+    r = res.get(sid, {'target': None, 'all': None, 'cross': {}})
+    t, a = r['target'], r['all']
     tgt = m['property']
-    caught_t = (t and tgt in t['fired']) or (a and tgt in a['fired'])
-    others = sorted(set((a or {}).get('fired', [])) - {tgt})
+    caught_t = bool((t and tgt in t['fired']) or (not t and a and tgt in a['fired']))
+    others = sorted((set((a or {}).get('fired', [])) | {p for p, v in r['cross'].items() if v}) - {tgt})
     what = m.get('summary', '')
     if not what:
         notes = os.path.join(os.path.dirname(d), 'notes.md')
